@@ -233,7 +233,7 @@ func runCheck(o *checkOpts) int {
 	kf := loadKnownFindings(filepath.Join(o.verif, "KNOWN_FINDINGS.txt"))
 	kf.applyRegions(obls, o.property)
 	solveStart := time.Now()
-	solveAll(obls, workDir, o.timeout, o.seed, o.workers, o.solver)
+	solveAll(obls, workDir, o.timeout, o.seed, o.workers, o.solver, func(ob *Obligation) bool { return kf.match(ob, o.property) != nil })
 	solveS := time.Since(solveStart).Seconds()
 
 	res := summarize(o, eng, reports, obls, kf, broken)
